@@ -20,6 +20,7 @@ RULE += (" " + 'Fault families beyond literals: operands that are names bound ea
 RULE += (" " + 'Hosts whose fault only happens when a later statement runs them: function body called directly, through map / filter / reduce (list and tuple forms), through another function; module body and module out expression instantiated later.')
 RULE += (" " + 'Module parameters overridden with a value of another type (named operand, call result, literal, selected operand).')
 RULE += (" " + 'Let statements whose value does not fit a constraint given by a name bound earlier (exemplar, named constraint, tuple exemplar).')
+RULE += (" " + "Calls of a function that uses its parameter as an int with an argument of another type that is a name, selected field, expression of names, call result or literal (judged when the checker finds it statically; found at run time the fault is in the callee's body: no verdict).")
 
 POS_RE = re.compile(r"line: ([0-9]+) column: ([0-9]+)")
 VIA_RE = re.compile(r"VIA: (?:file: \S+ )?line: ([0-9]+) column: ([0-9]+)")
@@ -83,6 +84,12 @@ def semantic_faults(r):
         # ... with an operand that is the result of instantiating a module an earlier statement defined
         ("failed-cast:module-result-operand", ("cast", "int", ("copy", ("sym", "modw"), []))),
         ("type-mismatch:module-result-operand", ("bin", "+", ("int", 1), ("copy", ("sym", "modw"), []))),
+        # a function whose body uses its parameter as an int, called with a value of another type that is not a literal
+        ("call-argument-type:named-operand", ("call", ("sym", "addone"), [("sym", "word")])),
+        ("call-argument-type:selected-operand", ("call", ("sym", "addone"), [("sel", ("sym", "rec2"), ("f", "s"))])),
+        ("call-argument-type:call-result", ("call", ("sym", "addone"), [("call", ("sym", "idf"), [("str", "w")])])),
+        ("call-argument-type:expression-of-names", ("call", ("sym", "addone"), [("bin", "+", ("sym", "word"), ("str", "b"))])),
+        ("call-argument-type:literal", ("call", ("sym", "addone"), [("str", "w")])),
         # a module parameter overridden with a value of another type: a name bound earlier, a call result, a literal
         ("module-argument-type:named-operand", ("copy", ("sym", "modp"), [("v", ("sym", "word"))])),
         ("module-argument-type:call-result", ("copy", ("sym", "modp"), [("v", ("call", ("sym", "idf"), [("str", "w")]))])),
@@ -191,6 +198,7 @@ def build_case(probe, r, nvalid, kind, ftoks, host, pos):
                ["let", "rec2", "=", "{", "s", "=", "\"w\"", ",", "n", "=", "7", "}", ";"], ["let", "lst2", "=", "[", "\"w\"", ",", "7", "]", ";"],
                ["let", "modw", "=", "module", "{", "}", "=>", "(", "r", ")", "{", "let", "r", "=", "\"w\"", ";", "}", ";"],
                ["constraint", "cint", "=", "in", "0", "..", "10", ";"],
+               ["let", "addone", "=", "func", "(", "x", ")", "=>", "x", "+", "1", ";"],
                ["let", "modp", "=", "module", "{", "v", "=", "1", "}", "=>", "(", "r", ")", "{", "let", "r", "=", "mod", ".", "v", ";", "}", ";"]]
     for attempt in range(8):
         stmts, _ = progs.gen_program(r, depth=2, nstmts=max(2, nvalid), p_bad=0.0, ascii_only=True)
@@ -339,6 +347,11 @@ def task(args):
                     res.violation(["fault-not-reported", mode, kind, host], {"text": text, "fault_stmt": fidx}, {})
                     continue
                 err = rr.get("err", "")
+                if kind.startswith("call-argument-type") and "Type error:" not in err:
+                    # found at run time: the operation that fails is in the callee's body (another statement), the call is
+                    # listed under VIA -- only the checker's static diagnosis puts the fault in the calling statement
+                    res.count("call-argument-type-found-at-run-time (no verdict)")
+                    continue
                 p0 = judge_msg(err, spans, fidx, cidx, kind, host, mode, res, text)
                 if p0 is None:
                     continue
@@ -366,7 +379,9 @@ def task(args):
                 with core.TempProject("c17") as tp:
                     tp.write("f.ucg", text)
                     ev = core.run_cli(["build", "f.ucg"], tp.root)
-                    if ev["exit"] == 1:
+                    if ev["exit"] == 1 and kind.startswith("call-argument-type") and "Type error:" not in ev["stderr"]:
+                        res.count("call-argument-type-found-at-run-time (no verdict)")
+                    elif ev["exit"] == 1:
                         judge_msg(ev["stderr"], spans, fidx, cidx, kind, host, "cli", res, text)
                     elif ev["exit"] == 0:
                         res.violation(["fault-not-reported", "cli", kind, host], {"text": text, "fault_stmt": fidx}, {})
